@@ -522,7 +522,9 @@ int main(void)
 				if (!strcmp(it, "F")) { s.fresh = true; continue; }
 				if (it[0] == 'S' || it[0] == 'O') {
 					unsigned long long from, to, step;
-					if (sscanf(it + 2, "%llu:%llu:%llu", &from, &to, &step) != 3 || step == 0) { printf(" bad-item=%s", it); continue; }
+					int nn = sscanf(it + 2, "%llu:%llu:%llu", &from, &to, &step);
+					if (nn == 1) { sweep_one(&s, it); continue; }
+					if (nn != 3 || step == 0) { printf(" bad-item=%s", it); continue; }
 					for (unsigned long long p = from; p <= to; p += step) {
 						snprintf(buf, sizeof(buf), "%c:%llu", it[0], p);
 						sweep_one(&s, buf);
